@@ -362,6 +362,60 @@ def c20(pid, tier, replay):
 # ---------------------------------------------------------------------------------------------------------------
 # C13 concurrency: lock discipline probes + consistent snapshots + race detector (declared auxiliary oracle)
 
+def exec_engine(tier):
+    """TaskExec.tla: every case of the two-line task run with real processes (harness/realprobe TestExec), rows validated by TLC
+    (RowsExec.tla); cached per (tree, tier, seed); the facts are attached to C04 (cancel cases) and C08 (failure cases)."""
+    import glob
+    from common import CACHE, locked, tree_key
+    key = tree_key("exec", tier, seed())
+    d = os.path.join(CACHE, "exec-" + key)
+    with locked(os.path.join(CACHE, "exec-" + key + ".lock")):
+        if os.path.exists(os.path.join(d, "result.json")):
+            return json.load(open(os.path.join(d, "result.json")))
+        shutil.rmtree(d, ignore_errors=True)
+        os.makedirs(d)
+        t0 = time.time()
+        with scratch("verif-exec-") as work:
+            copy_specs(work, {"TaskExec.tla", "TaskExecCheck.tla", "TaskExecCheck.cfg", "RowsExec.tla", "RowsExec.cfg"})
+            rc, out = tlc(work, "TaskExecCheck.tla", "TaskExecCheck.cfg", workers=1, timeout=300)
+            if "No error has been found" not in out:
+                raise Infra("TaskExec.tla: a design-level statement does not hold:\n" + out[-2000:])
+            probe = build_probe("realprobe", work)
+            rf = os.path.join(work, "exec_rows.ndjson")
+            rows = []
+            reps = 1 if tier == "quick" else 4
+            for rep in range(reps):
+                env = dict(os.environ, VERIF_TIER=tier, VERIF_SEED=str(seed()), VERIF_ROWS_EXEC=rf + ".part")
+                p = run([probe, "-test.run", "TestExec", "-test.count", "1", "-test.timeout", "0"], env=env, timeout=900)
+                if p.returncode != 0 or "INFRA" in p.stdout:
+                    raise Infra("probe TestExec failed:\n" + p.stdout[-3000:])
+                rows += [json.loads(l) for l in open(rf + ".part")]
+            open(rf, "w").write("".join(json.dumps(r) + "\n" for r in rows))
+            viols = []
+            for rnd in range(30):
+                rc, out = tlc(work, "RowsExec.tla", "RowsExec.cfg", workers=1, timeout=300)
+                if "No error has been found" in out:
+                    break
+                name = tlc_violation(out)
+                if not name:
+                    if "Assumption" in out and "is false" in out:
+                        raise Infra("the probe did not record every case of TaskExec.tla")
+                    raise Infra("TLC row validation failed:\n" + out[-3000:])
+                line = int(last_alias_state(out).get("line", "1"))
+                lines = open(rf).read().splitlines()
+                viols.append([name, json.loads(lines[line - 1])])
+                del lines[line - 1]
+                open(rf, "w").write("\n".join(lines) + "\n")
+                tl = os.path.join(work, "RowsExec.tla")
+                txt = "\n".join(x for x in open(tl).read().split("\n") if not x.startswith("ASSUME {"))
+                open(tl, "w").write(txt)
+        res = {"rows": rows, "viols": viols, "wall_s": round(time.time() - t0, 1)}
+        json.dump(res, open(os.path.join(d, "result.json"), "w"), indent=1)
+        for o in sorted(glob.glob(os.path.join(CACHE, "exec-*/")), key=os.path.getmtime)[:-6]:
+            shutil.rmtree(o, ignore_errors=True)
+        return res
+
+
 def conc_engine(tier):
     """The concurrent probe (8 clients, -race build) and the TLC validation of its rows; cached per (tree, tier, seed) and
     shared by C13 (lock discipline, snapshots, race reports) and the concurrent facts attached to C01 C05 C11 C16."""
